@@ -20,7 +20,8 @@ def pick(rnd, i):
     return case, make, ""
 
 
-CHECK = ComponentCheck("C27", pick, drain=0, embedded=(("CircularAllocator",), ("basicfifo", "serializer", "pipeline")))
+CHECK = ComponentCheck("C27", pick, drain=0, embedded=(("CircularAllocator",), ("basicfifo", "serializer", "pipeline")),
+                       suite=(("CircularAllocator",), ("test/lib/test_allocators.py", "test/lib/test_fifo.py", "test/lib/test_pipeline.py")))
 shards, run_shard = CHECK.shards, CHECK.run_shard
 RULE = ("[plus a second workload: CircularAllocator instances embedded in BasicFifo (driven directly, inside Serializer and inside pipelines), watched passively (vf/passive.py) against the same reference model: readiness, results and state registers every cycle, conditions embedded:*] histories = hostile random alloc(count)/free(count)/clear sequences for entries in {1,2,3,5,6,8,16}, max_alloc/max_free 1-4; with validation "
         "counts are unconstrained (overflowing/underflowing calls must be refused), without validation the stimulus respects the documented "
